@@ -536,4 +536,13 @@ theorem waiter_waits_on_the_channel_it_checked_in_source :
       = [["recv:c.done", "recv:ch", "recv:ctx.Done()"], ["recv:c.done", "recv:ch", "recv:ctx.Done()"]] := by
   decide
 
+/-- Regenerated from client.go (`MarshalJSON`, what `gohbase.DebugState` renders): the connection
+cache and the location cache are read in place, through pointers, so that `debugInfo` takes the
+locks the writers take. A copy of a cache has a lock of its own and shares the map and the tree:
+the rendering then races with every writer, and a lock copied while held is never released
+(observed as `debug-state-with-writer-on-*` on a seeded change). -/
+theorem debug_state_reads_the_caches_in_place_in_source :
+    GV.Gen.Exits.debugStateCacheRefs
+      = ["rcc := &c.clients", "krc := &c.regions", "rcc.debugInfo", "krc.debugInfo"] := by decide
+
 end GV.Avail
